@@ -137,6 +137,49 @@ type BadQuote struct {
 	X int `db:"\"abc"`
 }
 
+// tags at the edge of what parseTag accepts (the model decides which of them Prepare rejects)
+type TagLoneQuote struct {
+	X int `db:"'"`
+}
+type TagLoneDQuote struct {
+	X int `db:"\""`
+}
+type TagLoneQuoteFlag struct {
+	X int `db:"',omitempty"`
+}
+type TagEmptyQuoted struct {
+	X int `db:"''"`
+}
+type TagEmptyDQuoted struct {
+	X int `db:"\"\""`
+}
+type TagQuoteInside struct {
+	X int `db:"a'b"`
+}
+type TagSpace struct {
+	X int `db:" x"`
+}
+type TagTrailingComma struct {
+	X int `db:"x,"`
+}
+type TagTwoFlags struct {
+	X int `db:"x,omitempty,omitempty"`
+}
+type TagDash struct {
+	X int `db:"-"`
+	Y int `db:"y"`
+}
+type TagStar struct {
+	X int `db:"*"`
+}
+type TagUnderscore struct {
+	X int `db:"_"`
+	Y int `db:"_1"`
+}
+type TagMixedQuotes struct {
+	X int `db:"'a\""`
+}
+
 type BadChar struct {
 	X int `db:"a-b"`
 }
@@ -347,6 +390,7 @@ var zooSamples = []zooEntry{
 	{"S", sqlair.S{}}, {"IntSlice", IntSlice{}}, {"StrSlice", StrSlice{}}, {"PersonSlice", PersonSlice{}},
 	{"Priced", Priced{}}, {"TaggedEmbed", TaggedEmbed{}}, {"EmbedUnexported", EmbedUnexported{}},
 	{"EmbedNonStruct", EmbedNonStruct{}}, {"Mixed", Mixed{}}, {"Doc", Doc{}}, {"Diamond", Diamond{}}, {"Twice", Twice{}}, {"Tracked", Tracked{}}, {"BlobOpt", BlobOpt{}}, {"PtrScan", PtrScan{}}, {"Wide", Wide{}},
+	{"TagLoneQuote", TagLoneQuote{}}, {"TagLoneDQuote", TagLoneDQuote{}}, {"TagLoneQuoteFlag", TagLoneQuoteFlag{}}, {"TagEmptyQuoted", TagEmptyQuoted{}}, {"TagEmptyDQuoted", TagEmptyDQuoted{}}, {"TagQuoteInside", TagQuoteInside{}}, {"TagSpace", TagSpace{}}, {"TagTrailingComma", TagTrailingComma{}}, {"TagTwoFlags", TagTwoFlags{}}, {"TagDash", TagDash{}}, {"TagStar", TagStar{}}, {"TagUnderscore", TagUnderscore{}}, {"TagMixedQuotes", TagMixedQuotes{}},
 	{"zoo2.Person", zoo2.Person{}}, {"zoo2.M", zoo2.M{}}, {"zoo2.IntSlice", zoo2.IntSlice{}},
 }
 
